@@ -33,7 +33,8 @@ TECHNIQUE = 'contracts + inductive invariants on the real solver loops, ghost fi
 
 def _mk(fname, sh, moore, plus_one, nh, ng):
     h = cs.FUNCTIONS[fname]
-    params = dict(moore=moore, plus_one=plus_one, n_holds=nh, n_goals=ng)
+    params = dict(moore=moore, plus_one=plus_one, n_holds=nh, n_goals=ng,
+                  stale_primed_lists=(fname == 'solve_streett_game'))
 
     def run():
         return harness.verify(h, sh, params)
